@@ -30,6 +30,13 @@ CHECKS = {
    design_ref="DESIGN.md 5.1",
    note="Trusted: simkit's POSIX-like pipe/process/timer model (EPIPE, EOF, kill closes ends at once), one child = one controlled thread, interleavings at seam granularity, memory exhaustion modelled as alloc(limit+1)+abort on a private Alloc.",
    technique="deterministic simulation with fault injection: seeded schedules x fault sequences, per-step reference oracle, minimised replay"),
+ "C19": dict(
+   engine="simkit+h-sandbox",
+   category="exploration",
+   text="Seeded deterministic simulation of the real alloc.rs: operation histories (alloc, alloc_zeroed, realloc up/down, dealloc; boundary sizes around the limit; four limits) against a reference ledger, sequentially with checks after every operation and concurrently from 2..16 controlled threads where every atomic operation is a scheduling point under seeded policies; the parent allocator is made to refuse with a seeded probability. Invariants: conservation of tracked usage, limit never exceeded by a success, refusal is a no-op on usage and block contents, peak never below the high-water mark, zeroing and prefix preservation. Sampling, not enumeration.",
+   design_ref="DESIGN.md 5.2",
+   note="Trusted: sequentially consistent interleavings only (one thread runs at a time); reset_max/get_max only at quiescent points; conservative refusals are allowed by the one-directional 'only if'.",
+   technique="deterministic simulation with fault injection: controlled-thread scheduler over atomic operations + failing parent allocator, reference ledger oracle, minimised replay"),
 }
 
 def build():
@@ -47,7 +54,7 @@ def build():
             "technique": c["technique"],
         })
     na = [{"property_id": k, "reason": v} for k, v in sorted(NA.items()) if k not in CHECKS]
-    for pid in ("C15", "C19", "C20"):
+    for pid in ("C15", "C20"):
         if pid not in CHECKS:
             na.append({"property_id": pid, "reason": "check under construction in this session (planned in DESIGN.md section 5); not yet claimed"})
     hooks = subprocess.run(["git", "-C", "/repo", "log", "--format=%H %s", "--grep=^verif hooks"], capture_output=True, text=True).stdout.split("\n")
